@@ -21,7 +21,7 @@ def script_of(op, task, execno=0):
     return sc[-1] if sc else sim.DEFAULT_SCRIPT
 
 
-def expected_streams(op, task, execno=0):
+def expected_streams(op, task, execno=0, with_bg=True):
     """(stdout bytes, stderr bytes) a complete execution of the script writes"""
     sc = script_of(op, task, execno)
     out, err = b"", b""
@@ -31,6 +31,13 @@ def expected_streams(op, task, execno=0):
             out += sim.gen_bytes(st[1], "%s.%dout" % (name, idx))
         elif st[0] == "err":
             err += sim.gen_bytes(st[1], "%s.%derr" % (name, idx))
+    bg = sc.get("bg")
+    if bg and with_bg and sc.get("end", ["exit", 0])[0] in ("exit", "sig"):
+        for idx, st in enumerate(bg["steps"]):
+            if st[0] == "out" and bg["stream"] == "out":
+                out += sim.gen_bytes(st[1], "%s~bg.%dout" % (name, idx))
+            elif st[0] == "err" and bg["stream"] == "err":
+                err += sim.gen_bytes(st[1], "%s~bg.%derr" % (name, idx))
     return out, err
 
 
@@ -49,14 +56,14 @@ def sha(b):
     return hashlib.sha1(b).hexdigest()
 
 
-def check_version_dir(scn, op, task, ts, tree, root, execno=0):
+def check_version_dir(scn, op, task, ts, tree, root, execno=0, with_bg=True):
     """Is cond-out/<task dir>.<ts> a complete output of a successful execution of `task` under `op`?
     Returns a list of (what, detail)."""
     rel = M.out_dir_rel(task, ts)
     probs = []
     if tree.get(rel) != ("d",):
         return [("recorded-version-without-directory", {"dir": rel})]
-    out, err = expected_streams(op, task, execno)
+    out, err = expected_streams(op, task, execno, with_bg)
     want = {"stdout.log": out, "stderr.log": err}
     want.update(expected_files(op, task, execno))
     for name, data in sorted(want.items()):
